@@ -172,5 +172,166 @@ def encoding_unit():
     return u
 
 
+# ----------------------------------------------------------------------------- operators (C04, C05)
+import re as _re
+
+OPS_P = "src/ark_curve/ops/projective.rs"
+OPS_A = "src/ark_curve/ops/affine.rs"
+ELEM = "src/ark_curve/element.rs"
+ELEM_P = "src/ark_curve/element/projective.rs"
+ELEM_A = "src/ark_curve/element/affine.rs"
+
+
+def view(expr, ty):
+    t = ty.replace("&", "").replace("'a", "").replace("'b", "").replace("mut ", "").strip()
+    if t in ("Element", "Self_Element"):
+        return f"repr({expr}.inner)"
+    if t == "AffinePoint":
+        return f"arepr({expr}.inner)"
+    if t == "Fr":
+        return f"{expr}.val()"
+    raise ValueError(ty)
+
+
+OPS_LEMMAS = r"""
+impl Element { pub open spec fn p4(self) -> P4 { repr(self.inner) } }
+pub broadcast proof fn to_affine_idem(q: P4)
+    ensures #[trigger] to_affine(to_affine(q)) == to_affine(q)
+{ }
+pub broadcast proof fn arepr_of_aff(q: P4)
+    requires p4_wf(q)
+    ensures arepr(#[trigger] of_aff(to_affine(q))) == to_affine(q)
+{
+    broadcast use fq_abs;
+    let w = to_affine(q);
+    assert(p4_wf(w));
+    assert(w.z == 1 && w.t == fmul(w.x, w.y)) by {
+        if ark_is_zero(q) { assert(fmul(0, 1) == 0); }
+    }
+    assert(fq_of(w.x).val() == w.x && fq_of(w.y).val() == w.y);
+}
+pub broadcast proof fn repr_of_p4(q: P4)
+    requires p4_wf(q)
+    ensures repr(#[trigger] of_p4(q)) == q
+{ broadcast use fq_abs; }
+pub broadcast proof fn to_affine_wf(q: P4)
+    requires p4_wf(q)
+    ensures p4_wf(#[trigger] to_affine(q))
+{ }
+"""
+BUO = "broadcast use fq_abs, fr_abs, to_affine_idem, to_affine_wf, ark_mul_is_smul, arepr_of_aff, repr_of_p4;"
+
+
+def conv_items():
+    """the four From conversions between Element and AffinePoint (src/ark_curve/element.rs)"""
+    out = []
+    for hdr, pname, src_t, dst_t in [
+        ("impl From<Element> for AffinePoint", "point", "Element", "AffinePoint"),
+        ("impl From<AffinePoint> for Element", "point", "AffinePoint", "Element"),
+        ("impl From<&Element> for AffinePoint", "point", "&Element", "AffinePoint"),
+        ("impl From<&AffinePoint> for Element", "point", "&AffinePoint", "Element"),
+    ]:
+        lt = "<'a>" if src_t.startswith("&") else ""
+        st = src_t.replace("&", "&'a ")
+        if dst_t == "AffinePoint":
+            spec = "AffinePoint { inner: of_aff(to_affine(repr(point.inner))) }"
+        else:
+            spec = "Element { inner: of_p4(arepr(point.inner)) }"
+        pre = f"""impl{lt} FromSpecImpl<{st}> for {dst_t} {{
+    open spec fn obeys_from_spec() -> bool {{ true }}
+    open spec fn from_spec(point: {st}) -> {dst_t} {{ {spec} }}
+}}"""
+        out.append(Item(ELEM, hdr, [Fn("from", preamble=BUO, props=("C04", "C06"), attrs=R12)], pre=pre))
+    return out
+
+
+def _specimpl(gen, trait, rhs_t, self_t, out_t):
+    """SpecImpl with obeys = false: the contract is the impl-level `ensures` (normal-form equality), the SpecImpl
+    only states that the operator has no precondition"""
+    meth = {"Add": "add", "Sub": "sub", "Mul": "mul", "Neg": "neg", "AddAssign": "add_assign", "SubAssign": "sub_assign",
+            "MulAssign": "mul_assign"}[trait]
+    gen = gen or ""
+    if trait == "Neg":
+        return f"""impl{gen} NegSpecImpl for {self_t} {{
+    open spec fn obeys_neg_spec() -> bool {{ false }}
+    open spec fn neg_req(self) -> bool {{ true }}
+    open spec fn neg_spec(self) -> {out_t} {{ arbitrary() }}
+}}"""
+    if trait.endswith("Assign"):
+        return f"""impl{gen} {trait}SpecImpl<{rhs_t}> for {self_t} {{
+    open spec fn obeys_{meth}_spec() -> bool {{ false }}
+    open spec fn {meth}_req(&self, rhs: {rhs_t}) -> bool {{ true }}
+    open spec fn {meth}_spec(&self, rhs: {rhs_t}) -> &{self_t} {{ self }}
+}}"""
+    return f"""impl{gen} {trait}SpecImpl<{rhs_t}> for {self_t} {{
+    open spec fn obeys_{meth}_spec() -> bool {{ false }}
+    open spec fn {meth}_req(self, rhs: {rhs_t}) -> bool {{ true }}
+    open spec fn {meth}_spec(self, rhs: {rhs_t}) -> {out_t} {{ arbitrary() }}
+}}"""
+
+
+def op_items(path, props_addsub=("C04",), props_mul=("C05",)):
+    s = src(path)
+    items = []
+    for imp in s.all_items():
+        if imp.kind != "impl":
+            continue
+        hdr = _re.sub(r'\s+', ' ', imp.header.strip())
+        m = _re.match(r"impl(<[^>]*>)?\s*(\w+)(?:<(.*)>)?\s*for (.+)$", hdr)
+        if not m:
+            continue
+        gen, trait, rhs_t, self_t = m.groups()
+        fns = [c for c in imp.children() if c.kind == "fn"]
+        if len(fns) != 1:
+            continue
+        fn = fns[0]
+        out_t = None
+        for c in imp.children():
+            if c.kind == "type" and c.name == "Output":
+                out_t = _re.search(r'=\s*(.*?);', c.text).group(1).replace("Self", self_t.replace("&'a ", "").replace("&", ""))
+        pm = _re.search(r'\(\s*(?:&\s*mut\s+self|mut\s+self|&\s*self|self)\s*(?:,\s*(?:mut\s+)?(\w+)\s*:\s*([^)]*))?\)', fn.sig_text)
+        pname = pm.group(1) if pm else None
+        if trait in ("Add", "Sub"):
+            op = "te_add" if trait == "Add" else "te_sub"
+            ens = f"to_affine({view('r', out_t)}) == to_affine({op}({view('self', self_t)}, {view(pname, rhs_t)}))"
+            items.append(Item(path, hdr, [Fn(fn.name, ensures=ens, preamble=BUO, props=props_addsub, attrs=R12)], keep_assoc=("Output",),
+                              pre=_specimpl(gen, trait, rhs_t, self_t, out_t)))
+        elif trait in ("AddAssign", "SubAssign"):
+            op = "te_add" if trait == "AddAssign" else "te_sub"
+            ens = f"to_affine({view('final(self)', self_t)}) == to_affine({op}({view('old(self)', self_t)}, {view(pname, rhs_t)}))"
+            items.append(Item(path, hdr, [Fn(fn.name, ensures=ens, preamble=BUO, props=props_addsub, attrs=R12)],
+                              pre=_specimpl(gen, trait, rhs_t, self_t, out_t)))
+        elif trait == "Neg":
+            ens = f"to_affine({view('r', out_t)}) == to_affine(te_neg({view('self', self_t)}))"
+            items.append(Item(path, hdr, [Fn(fn.name, ensures=ens, preamble=BUO, props=props_addsub, attrs=R12)], keep_assoc=("Output",),
+                              pre=_specimpl(gen, trait, rhs_t, self_t, out_t)))
+        elif trait == "Mul":
+            # one operand is the scalar, the other the point
+            if "Fr" in self_t:
+                k, pt, pt_t = "self", pname, rhs_t
+            else:
+                k, pt, pt_t = pname, "self", self_t
+            ens = f"to_affine({view('r', out_t)}) == to_affine(ark_mul({k}.val(), {view(pt, pt_t)}))"
+            items.append(Item(path, hdr, [Fn(fn.name, ensures=ens, preamble=BUO, props=props_mul, attrs=R12)], keep_assoc=("Output",),
+                              pre=_specimpl(gen, trait, rhs_t, self_t, out_t)))
+        elif trait == "MulAssign":
+            ens = f"to_affine({view('final(self)', self_t)}) == to_affine(ark_mul({pname}.val(), {view('old(self)', self_t)}))"
+            items.append(Item(path, hdr, [Fn(fn.name, ensures=ens, preamble=BUO, props=props_mul, attrs=R12)],
+                              pre=_specimpl(gen, trait, rhs_t, self_t, out_t)))
+    return items
+
+
+def ops_unit():
+    fq = field_params("fq")
+    stubs, lem = fq_field_stubs()
+    items = list(stubs) + conv_items() + op_items(OPS_P) + op_items(OPS_A)
+    u = Unit(name="ark_ops", preludes=base_preludes() + [("curve_spec.rs", None), ("ark_ec.rs", None)],
+             items=items, lemmas=lem + OPS_LEMMAS, params=fq,
+             global_subst=[("R7", r'\bProjective<Decaf377EdwardsConfig>', 'EdwardsProjective')])
+    u.raw = [("src/ark_curve/element/projective.rs", "struct", "Element"), ("src/ark_curve/element/affine.rs", "struct", "AffinePoint")]
+    u.ufcs = True
+    return u
+
+
 def unit(which):
-    return {"encoding": encoding_unit}[which]()
+    return {"encoding": encoding_unit, "ops": ops_unit}[which]()
